@@ -207,7 +207,67 @@ def sweep(cov):
           cov["not_fitted_checks"] += unfitted_queries(est2, name, "re-parameterised")
         cov["sweep_values"] += 1
   cov["sweep_pairs"] = pairs
+  stateful_clone_check(cov)
   return pairs
+
+
+def stateful_clone_check(cov):
+  """A *stateful* parameter value: random_state given as a RandomState instance.  Two clones of
+  one unfitted estimator are separate estimators that behave identically when fitted: fitting one
+  must not change what the other learns (scikit-learn's clone gives each its own copy of the
+  stream)."""
+  from ..data import make_data
+  from ..estimators import fit_args, gen_params, default_meta, feasible
+  from ..core import rel_err
+  D = make_data(dict(kind="blobs", seed=4242, n=48, d=3, classes=3, cond=3, scale=0, sep=2.0, tuples=40))
+  r = substream(0, "c18-stateful")
+  for name in ALL:
+    if "random_state" not in dict(ctor_params(name)):
+      continue
+    params = None
+    for _ in range(20):
+      cand = gen_params(name, r, default_meta(D))
+      if feasible(name, cand, D):
+        params = cand
+        break
+    if params is None:
+      continue
+    params = {k: v for k, v in params.items() if not isinstance(v, dict)}
+    if name in ("LMNN", "NCA", "MLKR"):
+      params["init"] = "random"
+    elif name in ("ITML", "LSML", "SDML"):
+      params["prior"] = "random"
+    elif name == "MMC":
+      params["init"] = "random"
+    params["random_state"] = np.random.RandomState(20240)
+    try:
+      with warnings.catch_warnings():
+        warnings.simplefilter("ignore")
+        base = cls_of(name)(**params)
+        c1, c2 = clone(base), clone(base)
+        args = fit_args(name, D, "formed", "full")
+        o = []
+        for c in (c1, c2):
+          try:
+            c.fit(*[np.array(a, copy=True) for a in args])
+            o.append(("ok", c.components_))
+          except Exception as e:
+            o.append(("exc:" + type(e).__name__, None))
+    except Exception:
+      continue
+    cov["stateful_clone_checks"] += 1
+    if o[0][0] != o[1][0]:
+      raise Violation("clone", "cls=%s,random_state_instance,second_clone_outcome" % name,
+                      "two clones of %s(random_state=RandomState) fitted on the same data: %s vs %s"
+                      % (name, o[0][0], o[1][0]))
+    if o[0][0] == "ok":
+      La, Lb = o[0][1], o[1][1]
+      if La.shape != Lb.shape or (np.isfinite(La).all() and rel_err(La.T.dot(La), Lb.T.dot(Lb)) > 1e-9):
+        raise Violation("clone", "cls=%s,random_state_instance,clones_share_stream" % name,
+                        "two clones of one unfitted %s(random_state=RandomState instance) learn different "
+                        "metrics on the same data: fitting the first clone changed what the second one draws"
+                        % name)
+      cov["stateful_clone_models_equal"] += 1
 
 
 class Oracle(object):
